@@ -66,3 +66,31 @@ Print Assumptions C07_no_misaligned_sync_on_a_trailer_burst.
 Theorem C07_budget_seven_is_too_much : errs (PRE8 ++ START) 66 = 7 /\ errs (PRE8 ++ ENDM ++ [32]) 66 = 7.
 Proof. exact budget_seven_is_too_much. Qed.
 Print Assumptions C07_budget_seven_is_too_much.
+
+(** * The squelch's 32-symbol delay line: the byte output and the carrier-loss decision are aligned *)
+From Sameold Require Import Model.Squelch Proofs.RobustP Proofs.QuiesceP Proofs.DelayLineP.
+
+(** from a new squelch, after ANY symbols (any bits, any power flags, whatever it output on the way):
+    the correlator word and the power history hold exactly the last (at most 32) symbols, in step *)
+Theorem C07_squelch_holds_the_last_32_symbols : forall me ts,
+  paligned (feed me sq_init ts) (line_of [] ts) /\ sq_inv (feed me sq_init ts).
+Proof. intros me ts. apply squelch_line_invariant; [apply sq_init_inv|apply paligned_init]. Qed.
+Print Assumptions C07_squelch_holds_the_last_32_symbols.
+
+(** the byte handed to the framer is the OLDEST eight symbols of the line, least significant bit first:
+    received bits reach the framer in order, none skipped, none repeated *)
+Theorem C07_output_byte_is_the_oldest_eight_symbols : forall me s g bit po pc r hb s',
+  aligned s g -> sq_input me s bit po pc = (SqReady r hb, s') ->
+  (hb < 256)%N /\ forall i, (i < 8)%nat -> N.testbit hb (N.of_nat i) = fst (nth i (shift_in g (bit, pc)) (false, false)).
+Proof. exact ready_byte_is_oldest_eight. Qed.
+Print Assumptions C07_output_byte_is_the_oldest_eight_symbols.
+
+(** carrier loss is decided on the power flag recorded with the oldest symbol of the line — the first
+    symbol of the byte due next: data received with power is never cut off, and the burst ends with the
+    first symbol received without *)
+Theorem C07_carrier_loss_is_decided_on_the_oldest_symbol : forall me s g bit po pc c,
+  aligned s g -> sq_clock s = Some c ->
+  negb (sq_lock s) && (num_bit_errors SYNC_WORD (push_bit (sq_corr s) bit) <=? me)%N && po = false ->
+  (fst (sq_input me s bit po pc) = SqDropped <-> snd (nth 0 (shift_in g (bit, pc)) (false, false)) = false).
+Proof. exact drop_decided_on_oldest_symbol. Qed.
+Print Assumptions C07_carrier_loss_is_decided_on_the_oldest_symbol.
